@@ -71,7 +71,9 @@ GenProf(x) == LET r == RE(1..20) IN
 GenArgs(x) == LET r == RE(1..20) IN
               [override |-> IF r <= 13 THEN Unset ELSE IF r <= 15 THEN "inrepo" ELSE IF r <= 17 THEN "nested" ELSE IF r = 18 THEN "deep"
                             ELSE IF r = 19 THEN Unset ELSE IF RE(1..2) = 1 THEN "outside" ELSE "missing",
-               root |-> RE({Unset, "/altroot"}), buildpkg |-> RE(1..4) = 1]
+               root |-> RE({Unset, "/altroot"}), buildpkg |-> RE(1..4) = 1,
+               \* flags of the direct load_make_conf call made beside every load
+               mk |-> [src |-> RE(1..4) > 1, required |-> RE(BOOLEAN), recurse |-> RE(1..4) > 1, incr |-> RE(BOOLEAN)]]
 GenSets(x) == RE(SUBSET {"myset", "world", "installed", "vdb"})
 
 GenTree(x) == [rc |-> GenRc(x), disk |-> GenDisk(x), mc |-> GenMc(x), inc |-> GenInc(x), prof |-> GenProf(x),
